@@ -81,7 +81,7 @@ func c01Sequential(r *core.Run, idx int, rng *rand.Rand) {
 		sc.Done = false
 	case "done":
 		// late failures after the gate
-		switch (idx / 3) % 7 {
+		switch (idx / 3) % 9 {
 		case 1:
 			late = "user_unknown"
 		case 2:
@@ -95,6 +95,10 @@ func c01Sequential(r *core.Run, idx int, rng *rand.Rand) {
 			late = "app_unknown"
 		case 6:
 			late = "key_mismatch"
+		case 7:
+			late = "storage_panics"
+		case 8:
+			late = "user_id_is_a_login_name"
 		}
 	}
 	if idx%10 == 4 || idx%10 == 7 {
@@ -150,6 +154,33 @@ func c01Sequential(r *core.Run, idx int, rng *rand.Rand) {
 			}
 			return ""
 		}
+	case "storage_panics":
+		// the storage itself crashes inside one of the calls the callback makes after the gate; the request may end
+		// without a reply, but never in a Success
+		op := []string{"SetUserinfoWithUserID", "SetUserinfoWithUserID", "GetResponseSigningKey", "GetEntityIDByAppID"}[rng.Intn(4)]
+		kind := []string{sim.FaultPanicString, sim.FaultPanicError}[rng.Intn(2)]
+		e.W.Plan = func(tag, o string, occ int) string {
+			if o == op {
+				return kind
+			}
+			return ""
+		}
+	case "user_id_is_a_login_name":
+		// the user of the session cannot be looked up by id (removed or locked after the login), while the same string
+		// is the login name of somebody else
+		if rng.Intn(2) == 0 {
+			e.W.ForgetUser(sc.U.UserID)
+		} else {
+			e.W.Plan = func(tag, op string, occ int) string {
+				if op == "SetUserinfoWithUserID" {
+					return sim.FaultError
+				}
+				return ""
+			}
+		}
+		name := randUser(rng, "U_"+canary+"n", false)
+		name.Username = sc.U.UserID
+		e.W.AddUser(name)
 	case "app_unknown":
 		e.W.ForgetApp(sc.S.AppID)
 	case "key_mismatch":
@@ -232,9 +263,12 @@ func c01Sequential(r *core.Run, idx int, rng *rand.Rand) {
 		r.Violate(core.Violation{Clause: clause, Class: class, Reason: reason, Workload: wl, Index: idx, Case: desc, Observed: call.Describe()})
 	}
 	r.Eval(class)
-	if call.Panic != "" {
+	if call.Panic != "" && !(late == "storage_panics" && sim.IsInjectedPanic(call.Panic)) {
 		viol("panic", call.Panic)
 		return
+	}
+	if call.Panic != "" {
+		r.Count("requests_ended_by_a_crash_of_the_storage", 1)
 	}
 	d := call.D
 	if d.Success() {
